@@ -52,6 +52,8 @@ type ProcCase struct {
 	// line (the input is what follows the offset), "pipe" a pipe, "socket" a
 	// connected stream socket
 	StdinMode string `json:"stdin_mode,omitempty"`
+	// StdoutTTY: descriptor 1 is a terminal (a pseudo-terminal whose other end the harness reads)
+	StdoutTTY bool `json:"stdout_tty,omitempty"`
 
 	fifos []fifoFeed
 	ofifo string
@@ -287,11 +289,36 @@ func runBinary(c *ProcCase, variant string) (res procResult, trouble error) {
 		}
 	}
 	cmd.Stdout = so
+	var ptyMaster, ptySlave *os.File
+	var ptyData []byte
+	ptyDone := make(chan struct{})
+	if c.StdoutTTY && c.Strace == nil {
+		if m, s, err := openPty(); err == nil {
+			ptyMaster, ptySlave = m, s
+			cmd.Stdout = s
+			go func() {
+				defer close(ptyDone)
+				buf := make([]byte, 65536)
+				for {
+					n, err := m.Read(buf)
+					ptyData = append(ptyData, buf[:n]...)
+					if err != nil {
+						return // EIO once every slave descriptor is closed
+					}
+				}
+			}()
+		}
+	}
 	cmd.Stderr = se
 	cmd.Env = append([]string{"PATH=/usr/bin:/bin", "HOME=" + dir}, c.Env...)
 	if err := cmd.Start(); err != nil {
 		if ofifoReader != nil {
 			ofifoReader.Close()
+		}
+		if ptyMaster != nil {
+			ptySlave.Close()
+			<-ptyDone
+			ptyMaster.Close()
 		}
 		return res, err
 	}
@@ -360,6 +387,12 @@ func runBinary(c *ProcCase, variant string) (res procResult, trouble error) {
 	}
 	ob, _ := os.ReadFile(outPath)
 	eb, _ := os.ReadFile(errPath)
+	if ptyMaster != nil {
+		ptySlave.Close()
+		<-ptyDone
+		ptyMaster.Close()
+		ob = ptyData
+	}
 	res.stdout, res.stderr = string(ob), string(eb)
 	if c.Strace != nil {
 		// strace's own chatter is not the program's diagnostic
@@ -779,6 +812,7 @@ func genProcCase(t *Tape, c01only bool) *ProcCase {
 			c.Selectors = append(c.Selectors, procSelectors[t.Draw(len(procSelectors))])
 		}
 	}
+	c.StdoutTTY = t.Chance(1, 8)
 	// a named input may be a pipe rather than a regular file, or a kernel-provided file
 	if len(c.Inputs) > 0 && t.Chance(1, 6) {
 		c.Inputs[t.Draw(len(c.Inputs))].Kind = "fifo"
